@@ -230,3 +230,50 @@ for _n in (2, 3, 4):
     _mk_acc(_n)
 _mk_acc(5, 'thorough')
 _mk_acc(6, 'thorough')
+
+
+@obligation('C18.normalize.two_channels', functions=[IP + 'normalize', 'holopy.core.metadata.copy_metadata'],
+            bounds='2x2 image with two illumination channels (8 symbolic values, non-zero sum): the mean over ALL '
+                   'values is 1, idempotent, metadata and the channel axis kept')
+def normalize_channels(S):
+    _setup(S)
+    shape = (2, 2, 2)
+    vals = np.empty(shape, dtype=object if S.sym else float)
+    for idx in np.ndindex(shape):
+        vals[idx] = S.real('x%d%d%d' % idx)
+    img = data_grid(vals, spacing=0.1, medium_index=1.33, illum_wavelen=0.66, illum_polarization=(1, 0),
+                    extra_dims={'illumination': ['red', 'green']})
+    total = sum(vals.reshape(-1))
+    S.assume(total != 0)
+    out = normalize(img)
+    S.observe('out', out.values)
+    S.claim('dims', tuple(out.dims) == tuple(img.dims))
+    ov = np.asarray(out.values).reshape(-1)
+    S.claim_eq('mean_is_one', sum(ov), 8)
+    S.claim_eq('formula', ov, np.asarray(img.values).reshape(-1) * 8 / total)
+    S.claim_eq('idempotent', np.asarray(normalize(out).values).reshape(-1), ov)
+    S.claim('channels_kept', list(out.illumination.values) == ['red', 'green'])
+    _meta_kept(S, 'meta', out, img)
+
+
+@obligation('C18.bg_correct.own_noise_kept', functions=[IP + 'bg_correct', 'holopy.core.metadata.update_metadata'],
+            stubs=['zero_filter := identity (assumed on positive images)'],
+            bounds='2x2 raw image carrying its own noise_sd (symbolic), background with a different noise_sd: the '
+                   'result keeps the raw image\'s noise level; without one it takes the background\'s')
+def bg_own_noise(S):
+    _setup(S)
+    shape = (2, 2)
+    nz_raw, nz_bg = S.real('noise_raw', pos=True), S.real('noise_bg', pos=True)
+    S.assume(nz_raw != nz_bg)
+    raw, vr = _img(S, 'raw', shape, noise_sd=nz_raw)
+    bare, vbare = _img(S, 'bare', shape)
+    bg, vb = _img(S, 'bg', shape, pos=True, noise_sd=nz_bg)
+    S.patch(ip, 'zero_filter', lambda image: image, both=True)
+    out = bg_correct(raw, bg)
+    S.observe('out', out.values)
+    S.claim_eq('values', out.values.reshape(shape), vr / vb)
+    S.claim_eq('own_noise_kept', out.attrs['noise_sd'], nz_raw)
+    out2 = bg_correct(bare, bg)
+    S.claim_eq('background_noise_inherited', out2.attrs['noise_sd'], nz_bg)
+    S.claim_eq('raw_noise_untouched', raw.attrs['noise_sd'], nz_raw)
+    S.claim_eq('bg_noise_untouched', bg.attrs['noise_sd'], nz_bg)
